@@ -29,6 +29,66 @@ type c06Case struct {
 	// Blank: "lead" - the data begins with empty lines that make up all but the last 5 bytes of its
 	// size; "trail" - it ends with them.  Empty lines are data like any other.
 	Blank string `json:"blank,omitempty"`
+	// Refusals > 0: a different kind of case - one session in which that many oversized messages
+	// are refused one after the other (alternately after the final dot and at MAIL through a
+	// truthful SIZE), each followed by a message that fits: "after an oversized message is refused
+	// the session remains usable", however often that has happened before.
+	Refusals int `json:"refusals,omitempty"`
+}
+
+func c06Repeated(c *fw.Ctx, cas c06Case) {
+	smtp := sys.DefaultSMTP()
+	smtp.MaxMessageBytes = cas.Limit
+	s := sys.New(sys.Spec{Store: sys.StoreSpec{Backend: cas.Backend}, SMTP: smtp, NoHub: true})
+	defer s.Close()
+	k := s.DialSMTP()
+	d := &sys.SMTPDriver{K: k}
+	defer func() { k.Close(); <-k.Done }()
+	fail := func(key, detail string) {
+		c.Violate(key, fmt.Sprintf("%s\nlimit=%d backend=%s, one session with %d refusals\n  %s", detail, cas.Limit, cas.Backend, cas.Refusals, strings.Join(d.Log, "\n  ")), cas)
+	}
+	mo := model.NewStore(0, 0)
+	d.Greeting()
+	d.Cmd("EHLO c.test")
+	big, small := c06Body(cas.Limit+20), c06Body(cas.Limit-2)
+	for i := 0; i < cas.Refusals; i++ {
+		if i%2 == 0 {
+			d.Cmd("MAIL FROM:<s@o.test>")
+			d.Cmd("RCPT TO:<big@x.test>")
+			mid, fin := d.Data(big)
+			if mid.Code != 354 || !fin.OK {
+				fail("repeated|data|no-reply", fmt.Sprintf("round %d: DATA dialogue broken: %s / %s", i+1, mid.String(), fin.Why))
+				return
+			}
+			if fin.Class() == 2 {
+				fail("repeated|oversize-accepted", fmt.Sprintf("round %d: the oversized message was acknowledged: %s", i+1, fin.String()))
+				return
+			}
+		} else {
+			r := d.Cmd("MAIL FROM:<s@o.test> SIZE=" + strconv.Itoa(len(big)))
+			if !r.OK {
+				fail("repeated|mail|no-reply", fmt.Sprintf("round %d: no reply to MAIL with SIZE: %s", i+1, r.Why))
+				return
+			}
+			if r.Class() == 2 {
+				fail("repeated|oversize-accepted-at-mail", fmt.Sprintf("round %d: MAIL with a declared size above the limit was accepted: %s", i+1, r.String()))
+				return
+			}
+		}
+		// the session remains usable
+		r1 := d.Cmd("MAIL FROM:<s2@o.test>")
+		r2 := d.Cmd("RCPT TO:<small@x.test>")
+		_, fin := d.Data(small)
+		if r1.Class() != 2 || r2.Class() != 2 || !fin.OK || fin.Class() != 2 {
+			fail("repeated|followup-refused", fmt.Sprintf("after refusal number %d of this session the message that fits was not accepted: %s / %s / %s %s", i+1, r1.String(), r2.String(), fin.String(), fin.Why))
+			return
+		}
+		from, rcpts := d.Delivered()
+		for _, p := range s.CheckDelivery(mo, []sys.Expect{{Mailbox: "small", From: from, To: rcpts, Data: small}}, "big", "small") {
+			fail("repeated|"+p[0], p[1])
+			return
+		}
+	}
 }
 
 // c06Body builds data whose LF-normalised form has exactly n bytes (lines of ≤50 chars).
@@ -48,6 +108,10 @@ func c06Body(n int) string {
 }
 
 func c06Exec(c *fw.Ctx, cas c06Case) (nontrivial bool) {
+	if cas.Refusals > 0 {
+		c06Repeated(c, cas)
+		return true
+	}
 	smtp := sys.DefaultSMTP()
 	smtp.MaxMessageBytes = cas.Limit
 	if cas.Discard {
@@ -183,6 +247,19 @@ func c06Exec(c *fw.Ctx, cas c06Case) (nontrivial bool) {
 
 func c06Run(c *fw.Ctx) {
 	n := 0
+	for _, be := range []string{"mem", "file"} {
+		for _, L := range []int{10, 1000} {
+			n++
+			if !c.Mine(n) {
+				continue
+			}
+			cas := c06Case{Limit: L, Backend: be, Refusals: 24}
+			if c.Begin(func() any { return cas }) {
+				c.Guard("smtp", cas, func() { c06Exec(c, cas) })
+				c.Nontrivial(1)
+			}
+		}
+	}
 	limits := []int{0, 1, 10, 100, 1000, 5000} // 0: nothing but the empty message fits
 	if c.Thorough() {
 		limits = append(limits, 2, 3, 4, 5, 50, 51, 52, 65536, 1000000)
